@@ -5,6 +5,8 @@ import (
 	"strings"
 	"sync"
 	"unsafe"
+
+	"github.com/bilibili/gengine/verifrt/vsync"
 )
 
 // DeepClone copies an object graph (private fields included) so that a pristine, compiled
@@ -171,6 +173,27 @@ func (c *cloner) clone(v reflect.Value) reflect.Value {
 		if opaqueType(v.Type()) {
 			return v
 		}
+		if v.Type() == reflect.TypeOf(vsync.Pool{}) {
+			// a pool keeps its constructor and starts empty
+			d := reflect.New(v.Type()).Elem()
+			d.FieldByName("New").Set(readableField(v, "New"))
+			return d
+		}
+		if v.Type() == reflect.TypeOf(vsync.Map{}) {
+			d := reflect.New(v.Type())
+			if !v.CanAddr() {
+				tmp := reflect.New(v.Type()).Elem()
+				tmp.Set(v)
+				v = tmp
+			}
+			src := reflect.NewAt(v.Type(), unsafe.Pointer(v.UnsafeAddr())).Interface().(*vsync.Map)
+			dst := d.Interface().(*vsync.Map)
+			src.RawRange(func(k, x interface{}) bool {
+				dst.RawStore(k, c.clone(reflect.ValueOf(x)).Interface())
+				return true
+			})
+			return d.Elem()
+		}
 		if zeroType(v.Type()) {
 			return reflect.Zero(v.Type())
 		}
@@ -228,6 +251,10 @@ func (c *cloner) clone(v reflect.Value) reflect.Value {
 // fill copies the addressable (or at least readable) struct/array src into the addressable dst.
 func (c *cloner) fill(dst, src reflect.Value) {
 	t := src.Type()
+	if t == reflect.TypeOf(vsync.Pool{}) || t == reflect.TypeOf(vsync.Map{}) {
+		settable(dst).Set(c.clone(readable(src)))
+		return
+	}
 	if zeroType(t) {
 		return // fresh zero value
 	}
@@ -249,6 +276,15 @@ func (c *cloner) fill(dst, src reflect.Value) {
 	default:
 		settable(dst).Set(c.clone(readable(src)))
 	}
+}
+
+func readableField(v reflect.Value, name string) reflect.Value {
+	if !v.CanAddr() {
+		tmp := reflect.New(v.Type()).Elem()
+		tmp.Set(v)
+		v = tmp
+	}
+	return readable(v.FieldByName(name))
 }
 
 // readable strips the read-only flag of values obtained through unexported fields.
